@@ -79,7 +79,11 @@ class PoolWorld(object):
       if r['rid'] in started and r['serial'] is None:
         r['serial'] = started[r['rid']][1]
         self.start_order.append(r['rid'])
-      if resp:
+      if r['timed_out'] and r.get('timed_out_while') == 'getting' and not r['greenlet'].dead:
+        r['state'] = 'getting'          # its caller has been answered, but the pool is still opening a connection for it
+      elif r['timed_out'] and r.get('timed_out_while') == 'getting' and r['serial'] is not None and not r.get('conn_answered'):
+        r['state'] = 'lent'             # the pool forwarded it to the new connection, which has yet to answer it
+      elif resp:
         if r['state'] != 'done':
           r['state'] = 'done'
           m = resp[0][1]
@@ -139,12 +143,14 @@ class PoolWorld(object):
   def _op_Done(self, rid):
     from scales.message import MethodReturnMessage
     r = self._req(rid)
+    r['conn_answered'] = True
     r['stack'].AsyncProcessResponseMessage(MethodReturnMessage(return_value='r%d' % rid))
 
   def _op_Timeout(self, rid):
     from scales.message import MethodReturnMessage, TimeoutError
     r = self._req(rid)
     r['timed_out'] = True
+    r['timed_out_while'] = r['state']
     r['evt'].Set(True)
     r['stack'].AsyncProcessResponseMessage(MethodReturnMessage(error=TimeoutError()))
 
@@ -187,7 +193,7 @@ class PoolWorld(object):
             ops.append(['Done', r['rid']] + ([j] if j else []))
     if 'Timeout' in alpha:
       for r in self.reqs:
-        if r['state'] == 'queued':
+        if r['state'] == 'queued' or (r['state'] == 'getting' and not r['timed_out']):
           ops.append(['Timeout', r['rid']])
     if 'Die' in alpha:
       died = sum(1 for c in self.reg.channels if getattr(c, 'died', False))
